@@ -33,6 +33,10 @@ def run(repo, run, tier):
     newton(repo, run)
     splitting_clock(repo, run)
     stage_tolerance(repo, run)
+    # 'never handed back as accepted': the integrator accepts a stage solve iff the LAST slot of nonlinear_roots' result is below its tolerance, so
+    # every return site of nonlinear_roots must put the residual norm there (a step norm can be tiny while the stage equations are far from solved)
+    from .c15 import slots
+    slots(repo, run, rule_id="C02.7")
 
 
 # ------------------------------------------------------------------------------------------------
